@@ -98,6 +98,9 @@ func UV(v any) int {
 // X logs the evaluation of a range expression.
 func (r *Rec) X(id int) { r.log("x", id, 0) }
 
+// Two returns two values from one call (initialisers declaring two names).
+func Two(a, b int) (int, int) { return a + 10, b + 1 }
+
 // W is a ONE-argument effectful call: logs and returns x.
 func (r *Rec) W(x int) int { r.log("w", x); return x }
 
